@@ -179,4 +179,103 @@ example : effects { exCfg with gatePass := false } =
     [.file ["data", "E", "G", "data_county.csv"], .put .live ["root-dev", "E", "results", "G", "county", "current.csv"],
      .put .live ["root-dev", "E", "results", "G", "county", "current_counties.csv"]] := by decide
 
+
+/-! ### a storage service that does not acknowledge a put (`runWithFault`)
+
+A run that *ends normally* — with its tables or with the dedicated too-few-units error — has stored every object the call owes;
+an unacknowledged put ends the call with the storage error at that point. -/
+
+theorem walk_none (i : Nat) (l : List Eff) : walk none i l = (l, puts l, false) := by
+  induction l generalizing i with
+  | nil => simp [walk, puts]
+  | cons e rest ih =>
+    unfold walk
+    by_cases h : isPut e = true
+    · simp [h, ih, puts]
+    · simp [h, ih, puts]
+
+/-- the walk is cut short exactly when the unacknowledged position exists -/
+theorem walk_cut_iff (k i : Nat) (l : List Eff) : (walk (some k) i l).2.2 = true ↔ i ≤ k ∧ k < i + (puts l).length := by
+  induction l generalizing i with
+  | nil => simp [walk, puts]
+  | cons e rest ih =>
+    unfold walk
+    by_cases h : isPut e = true
+    · by_cases hk : k = i
+      · subst hk
+        simp [h, puts]
+      · have hk' : ¬ (some k = some i) := by simpa using hk
+        simp only [h, if_true, hk', if_false]
+        rw [ih (i + 1)]
+        simp [puts, h]
+        omega
+    · simp only [h]
+      simp only [Bool.false_eq_true, if_false]
+      rw [ih i]
+      simp [puts, h]
+
+/-- when the walk is not cut short everything took hold -/
+theorem walk_complete (nack : Option Nat) (i : Nat) (l : List Eff) (h : (walk nack i l).2.2 = false) :
+    (walk nack i l).1 = l ∧ (walk nack i l).2.1 = puts l := by
+  induction l generalizing i with
+  | nil => simp [walk, puts]
+  | cons e rest ih =>
+    unfold walk at h ⊢
+    by_cases hp : isPut e = true
+    · by_cases hk : nack = some i
+      · simp [hp, hk] at h
+      · simp only [hp, if_true, hk, if_false] at h ⊢
+        have := ih (i + 1) h
+        simp [this.1, this.2, puts, hp]
+    · simp only [hp] at h ⊢
+      simp only [Bool.false_eq_true, if_false] at h ⊢
+      have := ih i h
+      simp [this.1, this.2, puts, hp]
+
+/-- **a run that ends normally has stored everything it owes**: if the call returns its tables or raises the dedicated
+    too-few-units error, every effect of the fault-free call took hold, whatever the storage did -/
+theorem ends_normally_all_stored (c : Cfg) (nack : Option Nat) (h : (runWithFault c nack).outcome ≠ .storageError) :
+    (runWithFault c nack).stored = effects c ∧ (runWithFault c nack).attempted = puts (effects c) ∧
+    (runWithFault c nack).outcome = gateOutcome c := by
+  unfold runWithFault at h ⊢
+  by_cases hc : (walk nack 0 (effects c)).2.2 = true
+  · simp [hc] at h
+  · have hf : (walk nack 0 (effects c)).2.2 = false := by simpa using hc
+    have := walk_complete nack 0 (effects c) hf
+    simp [hf, this.1, this.2]
+
+/-- **the too-few-units error still means the live results are stored**, also against a faulty storage -/
+theorem not_enough_still_saved (c : Cfg) (nack : Option Nat) (hl : c.isLocal = false) (hs : c.saveResults = true)
+    (h : (runWithFault c nack).outcome = .notEnough) : ∀ e ∈ liveKeys c, e ∈ (runWithFault c nack).stored := by
+  have hne : (runWithFault c nack).outcome ≠ .storageError := by rw [h]; decide
+  have := ends_normally_all_stored c nack hne
+  rw [this.1]
+  intro e he
+  unfold effects
+  simp [hl, hs, he]
+
+/-- **an unacknowledged put ends the call with the storage error**: the call attempted exactly the puts up to that one -/
+theorem fault_aborts (c : Cfg) (k : Nat) (hk : k < (puts (effects c)).length) :
+    (runWithFault c (some k)).outcome = .storageError := by
+  unfold runWithFault
+  have : (walk (some k) 0 (effects c)).2.2 = true := (walk_cut_iff k 0 (effects c)).mpr ⟨Nat.zero_le _, by omega⟩
+  simp [this]
+
+/-- without faults the run is the fault-free one -/
+theorem no_fault_run (c : Cfg) : (runWithFault c none).stored = effects c ∧ (runWithFault c none).outcome = gateOutcome c := by
+  unfold runWithFault
+  rw [walk_none]
+  simp
+
+/-- `S3Util.put` raises when the service returns nothing, `get_estimates` has no handler, and "local" is read from `APP_ENV` without a
+    default (shape anchors, regenerated) -/
+theorem bridge_storage_faults :
+    Gen.C18.put_ack_shape = ["self.client.put_object(**kwargs)", "Raise"] ∧ Gen.C18.client_catches = 0 ∧
+    Gen.C18.app_env_source = ["os.getenv('APP_ENV')"] := ⟨rfl, rfl, rfl⟩
+
+example : (runWithFault exCfg (some 2)).outcome = .storageError ∧ (runWithFault exCfg (some 2)).attempted.length = 3 ∧
+    (runWithFault exCfg (some 2)).stored.length = 3 ∧ (runWithFault exCfg (some 9)).outcome = .completed ∧
+    (runWithFault { exCfg with gatePass := false } (some 1)).outcome = .storageError ∧
+    (runWithFault { exCfg with gatePass := false } none).outcome = .notEnough := by decide
+
 end ElexModel.Persist
